@@ -8,10 +8,14 @@ HERE="$(cd "$(dirname "$0")/.." && pwd)"; cd "$HERE"
 n="$1"; shift; ids="${*:-${n%%-*}}"
 p="$HERE/seeded/$n/patch.diff"; [ -f "$p" ] || p="$n"
 [ -z "$(git -C /repo status --porcelain)" ] || { echo "/repo not clean"; exit 2; }
+# PLAIN: no change applied (a run on the unchanged tree that has to take its turn with the runs on changed trees)
+if [ "$n" != "PLAIN" ]; then
 git -C /repo apply "$p" || git -C /repo apply --3way "$p" || { echo "does not apply"; exit 2; }
+fi
 for c in $ids; do
   log=$(bin/check "$c" quick 2>&1); rc=$?
   echo "== $n: $c rc=$rc"; echo "$log" | grep -A1 "^VIOLATION\|MACHINERY" | grep -v "^--" | cut -c1-300 | head -8
+  [ "$n" = "PLAIN" ] && echo "$log" | grep -E "^\[$c\] tier=|KNOWN-FINDING" | cut -c1-200 | tail -4
 done
 git -C /repo checkout -- . ; git -C /repo reset -q; git -C /repo clean -fdq
-git checkout -q -- evidence replays 2>/dev/null; git clean -fdq replays
+[ "$n" = "PLAIN" ] || { git checkout -q -- evidence replays 2>/dev/null; git clean -fdq replays; }
